@@ -1,12 +1,21 @@
 #!/bin/sh
-# usage: tools/mutant.sh <file-in-repo> <sed-expr> <prop> [<prop>...]  -- applies a mutation, runs checks, always reverts
+# usage: tools/mutant.sh <file-in-repo> <python-expr: old|||new> <prop> [<prop>...]  -- applies a textual mutation, runs checks, always reverts
 f="$1"; e="$2"; shift 2
 cd /repo || exit 2
-sed -i "$e" "$f"
-if git diff --quiet; then echo "MUTATION DID NOT APPLY"; exit 2; fi
+python3 - "$f" "$e" <<'PY' || exit 2
+import sys
+f, e = sys.argv[1], sys.argv[2]
+old, new = e.split("|||")
+s = open(f).read()
+if s.count(old) < 1:
+    print("MUTATION DID NOT APPLY"); sys.exit(2)
+open(f, "w").write(s.replace(old, new, 1))
+PY
 for p in "$@"; do
-  n=$(cd /verif && timeout 900 ./check "$p" 2>&1 | grep -c "^VIOLATION")
-  echo "mutant[$f :: $e] $p violations=$n"
+  out=$(cd /verif && timeout 1200 ./check "$p" 2>&1)
+  n=$(echo "$out" | grep -c "^VIOLATION")
+  echo "mutant[$f :: $e] $p violations=$n rc_line=$(echo "$out" | grep "tier=" | tail -1 | cut -c1-150)"
+  echo "$out" | grep -A1 "^VIOLATION" | head -4
 done
 git checkout -- "$f"
 git diff --quiet || echo "WARNING repo dirty"
